@@ -25,7 +25,7 @@ def build_map(config, after=None):
         if i == cut and after is not None:
             after(mm)
             after = None
-        reg = hw.MockReg(r["w"], r["acc"])
+        reg = hw.mock_reg(r["w"], r["acc"], config.get("reg_kind"))
         kw = {}
         if r.get("align") is not None:
             kw["alignment"] = r["align"]
@@ -110,7 +110,8 @@ class MuxWorld(World):
         return {"dw": dw, "aw": aw, "al": al, "regs": regs, "ov": ov, "ov2": ov2, "mode": mode,
                 "hwseed": rng.bits(32),
                 "late": rng.range(1, max(1, len(regs))) if (regs and rng.chance(0.12)) else 0,
-                "mid_elab": int(rng.chance(0.5)), "omit": int(rng.chance(0.3))}
+                "mid_elab": int(rng.chance(0.5)), "omit": int(rng.chance(0.3)),
+                "reg_kind": rng.choice(["valueq", "falsy"]) if rng.chance(0.08) else None}
 
     def gen_ops(self, rng, config, prop):
         ops = []
@@ -148,6 +149,9 @@ class MuxWorld(World):
                 size = 6
                 n = None if rng.chance(0.7) else rng.below(12)
                 gaps = [rng.range(1, 2) if rng.chance(0.2) else 0 for _ in range(size)]
+                if rng.chance(0.004):
+                    gaps[rng.range(1, 3)] = rng.range(250, 300)     # a long quiet spell mid-way
+                    cycles += 300
                 ops.append({"k": "txn", "reg": rng.below(nreg), "mode": rng.choice(["r", "w", "rw"]),
                             "n": n, "gaps": gaps, "data": [rng.bits(dw) for _ in range(size)]})
                 if rng.chance(0.2):
